@@ -7,6 +7,10 @@ BASELINE_OFF = ("cd /repo && cargo nextest run --workspace --no-fail-fast --test
 
 # id -> dict(engine, technique, text, note, design_ref)
 CHECKS = {
+ "C02": dict(engine="booked", design="§5 C02",
+   technique="explicit-state BFS to fix-point over bookkeeping states through the real insert_db/commit_snapshot/from_conn, plus replay-BFS over a real node (process_multiple_changes, apply, clear) against an event-based set model",
+   text="(a) every reachable (needed, head, gap rows) state for a universe of 8 (thorough 11) versions x every non-empty version set as an insertion, on a real connection, to fix-point: head, needed set, gap rows (disjoint, non-adjacent, in range), contains_version and reload equality checked on every transition. (b) a real node receiving complete / every seq sub-range chunk / every empty range / batches of two for 2 (thorough 3) versions of 3 seqs, with apply and clear steps: after every step the advertised sync state must split 1..=head exactly (held => delivered complete or covered; partial => exactly the undelivered seqs and not applied; needed => nothing stored), persisted gap/seq rows must equal memory, stale rows must have a clear scheduled, and BookedVersions::from_conn must agree with the live view.",
+   note="(b) is bounded by depth (quick: depth 2 complete, depth 3 until a 35 s wall cap; the cap and frontier left are in the evidence). Versions are 3-cell inserts on distinct keys. A fully buffered, not yet applied version may be advertised as held (it is durably stored)."),
  "C04": dict(engine="pure", design="§5 C04",
    technique="exhaustive small-scope enumeration of all pairs of well-formed sync states through the real compute_available_needs, against an independent set model",
    text="Every pair (ours, theirs) of well-formed SyncStateV1 values for one origin actor up to V versions x S seqs (quick: V<=4/S=0, V<=4/S<=1, V<=3/S<=2; thorough: up to V<=6), plus two origin actors and the node's own actor id on both sides, is pushed through the real function; completeness, head bound and not-own-versions are checked by a bitmask set model. Exhaustive within those bounds, so any off-by-one or dropped subtraction in the range arithmetic shows as a concrete pair.",
@@ -60,6 +64,7 @@ def main():
             "add_only": True,
         },
         "engines": [
+            {"name": "booked", "path": "harness/src/bin/booked.rs", "serves_properties": ["C02"], "kind_free_text": "BFS to fix-point over real bookkeeping + replay-BFS over a real node"},
             {"name": "members", "path": "harness/src/bin/members.rs", "serves_properties": ["C18"], "kind_free_text": "stateright BFS over the real Members methods"},
             {"name": "pure", "path": "harness/src/bin/pure.rs", "serves_properties": ["C04", "C08"], "kind_free_text": "exhaustive small-scope enumeration of pure functions against set models"},
         ],
